@@ -83,11 +83,65 @@ Proof.
   { intros r next d' Hm E. apply (best_match_sound lk d WF) in Hm. destruct Hm as [Hr _]. unfold registered in Hr.
     eapply (mrs_update d0 d d' (reg_id r) r); [exact H|exact Hr|exact E|reflexivity|reflexivity|reflexivity]. }
   pose proof (call_cases cfg lk now d caller req opts proc args kw oracle) as C.
-  inversion C; subst; auto.
+  inversion C; subst; auto;
+    try (eapply meta_regs_same_ext; [apply nps_frame|exact H]; fail).
   - eapply meta_regs_same_ext; [apply chs_regs|exact H].
   - eapply Hn; [eassumption|reflexivity].
   - eapply Hn; [eassumption|reflexivity].
   - eapply Hn; [eassumption|apply cfs_regs].
+Qed.
+
+Lemma call_invoked_wf : forall r s req opts proc args kw oracle k d callee o,
+    realm_wf r -> ids_below k r -> k < max_idN -> find_session (r_clients r) (s_id s) = Some s ->
+    call (r_cfg r) (lookup r) (r_now r) (r_dealer r) s req opts proc args kw oracle = CallInvoked d callee o ->
+    let r1 := update_session (r_set_dealer r d) callee in
+    realm_wf r1 /\ ids_below (k + 1) r1 /\
+    (forall x, lookup r1 x <> None <-> lookup r x <> None) /\
+    (exists rcv invid regid det, o = [(rcv, RInvocation invid regid det args kw)] /\
+                                 lookup r rcv <> None) /\
+    (forall rcv invid regid det args' kw', o = [(rcv, RInvocation invid regid det args' kw')] ->
+                                          forall c, caller_opt det = Some c -> client r1 c).
+Proof.
+  intros r s req opts proc args kw oracle k d callee o W I Hk Hs Ecall r1. subst r1.
+  assert (Cs : client r (s_id s)) by (unfold client; congruence).
+  destruct (attached_client r s W Hs) as [Hl Hm].
+  pose proof I as (I1 & I2 & I3).
+  pose proof (lookup_ok_realm r (rw_meta_id r W)) as LOK.
+  pose proof (nowrap_below k r I Hk) as NW.
+  assert (Ha : attached (lookup r) (s_id s)) by (unfold attached; congruence).
+  pose proof (call_wf (r_cfg r) (lookup r) (r_now r) (r_dealer r) s req opts proc args kw oracle
+                      (rw_dealer r W) LOK NW Ha) as CW.
+  pose proof (call_facts (r_cfg r) (lookup r) (r_now r) (r_dealer r) s req opts proc args kw oracle LOK NW) as CF.
+  pose proof (mrs_call (dealer0 (r_cfg r)) (r_cfg r) (lookup r) (r_now r) (r_dealer r) s req opts proc args kw oracle
+                       (rw_dealer r W) (rw_metaregs r W)) as Mr.
+  rewrite Ecall in CW, CF, Mr.
+  destruct CW as [Hat CW]. destruct CF as ((c0 & Hc0 & Hinv) & F1 & F2 & F3 & (rcv & invid & regid & det & Eo & Hdet & Hrcv)).
+  assert (Hle : s_invgen c0 <= s_invgen callee) by lia.
+  specialize (CW (lookup (update_session r callee)) (lookup_le_update r callee c0 Hc0 Hle)).
+  rewrite lookup_update in CW by congruence. rewrite N.eqb_refl in CW. specialize (CW eq_refl).
+  destruct (update_session_wf r callee c0 k (k + 1) W Hc0 Hle) as [W1 J1].
+  rewrite update_set_dealer.
+  assert (W2 : realm_wf (r_set_dealer (update_session r callee) d)).
+  { apply wf_set_dealer; auto.
+    - rewrite F1. exact (rw_cr_nonempty r W).
+    - intros c x Hc. destruct (F3 c x Hc) as [->|Hc']; [exact Hm|]. eapply (rw_calls_nometa r W); eauto.
+    - destruct (update_session_frame r callee) as (Fc & _). rewrite Fc. exact Mr. }
+  assert (J2 : ids_below (k + 1) (r_set_dealer (update_session r callee) d)).
+  { assert (J : ids_below (k + 1) (update_session r callee)).
+    { apply J1; [exact I| |lia]. specialize (I3 _ _ Hc0). lia. }
+    destruct J as (A & B & C). repeat split; cbn [r_set_dealer r_broker r_dealer]; auto.
+    destruct (update_session_frame r callee) as (_ & _ & _ & Fd & _). lia. }
+  split; [exact W2|]. split; [exact J2|].
+  assert (Lk : forall x, lookup (r_set_dealer (update_session r callee) d) x <> None <-> lookup r x <> None).
+  { intros x. change (lookup (r_set_dealer (update_session r callee) d)) with (lookup (update_session r callee)).
+    rewrite lookup_update by congruence. destruct (N.eqb_spec x (s_id callee)) as [->|Hn]; [|tauto].
+    split; [intros _; congruence|discriminate]. }
+  split; [exact Lk|]. split.
+  - exists rcv, invid, regid, det. split; [exact Eo|exact Hrcv].
+  - intros rcv' invid' regid' det' args' kw' E c Hc. rewrite Eo in E. inversion E; subst.
+    unfold caller_opt in Hc. destruct Hdet as [Hd|Hd]; rewrite Hd in Hc; [discriminate|].
+    apply as_id_vid in Hc; [|apply (rw_ids r W s); eapply find_session_In; eauto]. subst c.
+    change (client (update_session r callee) (s_id s)). now apply client_update.
 Qed.
 
 Theorem handle_wf : forall r s m oracle k,
@@ -168,35 +222,16 @@ Proof.
     pose proof (call_facts (r_cfg r) (lookup r) (r_now r) (r_dealer r) s req opts proc args kw oracle LOK NW) as CF.
     pose proof (mrs_call (dealer0 (r_cfg r)) (r_cfg r) (lookup r) (r_now r) (r_dealer r) s req opts proc args kw oracle
                          (rw_dealer r W) (rw_metaregs r W)) as Mr.
-    destruct (call _ _ _ _ _ _ _ _ _ _ _) as [d o|o|d callee o].
+    destruct (call _ _ _ _ _ _ _ _ _ _ _) as [d o|o|d callee o] eqn:Ecall.
     + destruct CF as (F1 & F2 & F3). cbn [fst]. apply Up. split.
       * apply wf_set_dealer; auto.
         -- rewrite F1. exact (rw_cr_nonempty r W).
-        -- intros c x. rewrite F3. apply (rw_calls_nometa r W).
+        -- intros c x Hc. apply F3 in Hc. eapply (rw_calls_nometa r W); eauto.
       * repeat split; cbn [r_set_dealer r_broker r_dealer]; auto. lia.
     + destruct (leave_wf r (s_id s) k W I) as (W1 & J1 & _).
       destruct (leave r (s_id s)). apply Up. exact (conj W1 J1).
-    + destruct CW as [Hat CW]. destruct CF as ((c0 & Hc0 & Hinv) & F1 & F2 & F3 & (rcv & invid & regid & det & Eo & Hdet)).
-      assert (Hle : s_invgen c0 <= s_invgen callee) by lia.
-      specialize (CW (lookup (update_session r callee)) (lookup_le_update r callee c0 Hc0 Hle)).
-      rewrite lookup_update in CW by congruence. rewrite N.eqb_refl in CW. specialize (CW eq_refl).
-      destruct (update_session_wf r callee c0 k (k + 1) W Hc0 Hle) as [W1 J1].
-      rewrite update_set_dealer.
-      assert (W2 : realm_wf (r_set_dealer (update_session r callee) d)).
-      { apply wf_set_dealer; auto.
-        - rewrite F1. exact (rw_cr_nonempty r W).
-        - intros c x Hc. destruct (F3 c x Hc) as [->|Hc']; [exact Hm|]. eapply (rw_calls_nometa r W); eauto.
-        - destruct (update_session_frame r callee) as (Fc & _). rewrite Fc. exact Mr. }
-      assert (J2 : ids_below (k + 1) (r_set_dealer (update_session r callee) d)).
-      { assert (J : ids_below (k + 1) (update_session r callee)).
-        { apply J1; [exact I| |lia]. specialize (I3 _ _ Hc0). lia. }
-        destruct J as (A & B & C). repeat split; cbn [r_set_dealer r_broker r_dealer]; auto.
-        destruct (update_session_frame r callee) as (_ & _ & _ & Fd & _). lia. }
+    + destruct (call_invoked_wf r s req opts proc args kw oracle k d callee o W I Hk Hs Ecall) as (W2 & J2 & _ & _ & Hcl).
       apply run_meta_invocation_wf; auto.
-      intros rcv' invid' regid' det' args' kw' E c Hc. rewrite Eo in E. inversion E; subst.
-      unfold caller_opt in Hc. destruct Hdet as [Hd|Hd]; rewrite Hd in Hc; [discriminate|].
-      apply as_id_vid in Hc; [|apply (rw_ids r W s); eapply find_session_In; eauto]. subst c.
-      change (client (update_session r callee) (s_id s)). now apply client_update.
   - (* CANCEL *)
     destruct (cancel_frame (lookup r) (r_dealer r) (s_id s) req opts) as (E1 & E2 & E3).
     pose proof (cancel_wf (lookup r) (lookup r) (r_dealer r) (s_id s) req opts (rw_dealer r W)) as Wd.
